@@ -4,8 +4,11 @@
 (*   a rigid motion (composition of seeded random rotations, exact axis     *)
 (*   permutations / sign flips with determinant +1, integer translations),  *)
 (*   the order of atoms inside residues, an order-preserving renaming of    *)
-(*   chains and residue numbers, and the delivery format (in-memory object, *)
-(*   PDB text, mmCIF text).                                                 *)
+(*   chains and residue numbers, the delivery format (in-memory object,    *)
+(*   PDB text, mmCIF text), and whether a text carries the records that     *)
+(*   DESCRIBE the polymer besides its atoms (PDB: MODRES; mmCIF: entity,    *)
+(*   entity_poly with the canonical one-letter sequence,                    *)
+(*   pdbx_struct_mod_residue) - records that say what the atoms already say.*)
 (* Presentation actions change only these variables - never the structure;  *)
 (* property C05 is the frame property that the (canonicalised) annotation   *)
 (* is the same in every state of a behaviour.                               *)
@@ -31,36 +34,40 @@ VARIABLES motion,   \* sequence of <<kind, id>> motions applied so far
           shift,    \* id of the residue-number shift (0 = none)
           icodes,   \* 0 = numbering as deposited, k = k-th order-preserving renumbering WITH insertion codes
           fmt,      \* "obj" | "pdb" | "cif"
+          records,  \* 0 = atoms only, 1 = a text also carries the records describing the polymer
           lastop,   \* the step just taken, for replay
           steps
-vars == <<motion, atomOrder, chains, shift, icodes, fmt, lastop, steps>>
+vars == <<motion, atomOrder, chains, shift, icodes, fmt, records, lastop, steps>>
 
 Formats == {"obj", "pdb", "cif"}
 Exact(mo) == \A k \in 1..Len(mo) : mo[k][1] # "Rotate"
 
 Init == /\ motion = <<>> /\ atomOrder = 0 /\ chains = 0 /\ shift = 0 /\ icodes = 0
-        /\ fmt \in {"obj", "cif"} /\ lastop = <<"Deliver", 0>> /\ steps = 0
+        /\ fmt \in {"obj", "cif"} /\ records = 0 /\ lastop = <<"Deliver", 0>> /\ steps = 0
 
 Step(op) == lastop' = op /\ steps' = steps + 1 /\ steps < MaxSteps
 
 Rotate(k)    == /\ fmt = "obj"                       \* a random rotation is not representable in 3 decimals
                 /\ motion' = Append(motion, <<"Rotate", k>>) /\ Step(<<"Rotate", k>>)
-                /\ UNCHANGED <<atomOrder, chains, shift, icodes, fmt>>
+                /\ UNCHANGED <<atomOrder, chains, shift, icodes, fmt, records>>
 AxisPerm(k)  == /\ motion' = Append(motion, <<"AxisPerm", k>>) /\ Step(<<"AxisPerm", k>>)
-                /\ UNCHANGED <<atomOrder, chains, shift, icodes, fmt>>
+                /\ UNCHANGED <<atomOrder, chains, shift, icodes, fmt, records>>
 Translate(k) == /\ motion' = Append(motion, <<"Translate", k>>) /\ Step(<<"Translate", k>>)
-                /\ UNCHANGED <<atomOrder, chains, shift, icodes, fmt>>
+                /\ UNCHANGED <<atomOrder, chains, shift, icodes, fmt, records>>
 PermuteAtoms(k) == /\ atomOrder' = k /\ atomOrder # k /\ Step(<<"PermuteAtoms", k>>)
-                   /\ UNCHANGED <<motion, chains, shift, icodes, fmt>>
+                   /\ UNCHANGED <<motion, chains, shift, icodes, fmt, records>>
 RenameChains == /\ chains' = 1 - chains /\ Step(<<"RenameChains", 1 - chains>>)
-                /\ UNCHANGED <<motion, atomOrder, shift, icodes, fmt>>
+                /\ UNCHANGED <<motion, atomOrder, shift, icodes, fmt, records>>
 ShiftNumbers(k) == /\ shift' = k /\ shift # k /\ Step(<<"ShiftNumbers", k>>)
-                   /\ UNCHANGED <<motion, atomOrder, chains, icodes, fmt>>
+                   /\ UNCHANGED <<motion, atomOrder, chains, icodes, fmt, records>>
 InsertCodes(k)  == /\ icodes' = k /\ icodes # k /\ Step(<<"InsertCodes", k>>)
-                   /\ UNCHANGED <<motion, atomOrder, chains, shift, fmt>>
+                   /\ UNCHANGED <<motion, atomOrder, chains, shift, fmt, records>>
 SwitchFormat(f) == /\ f # fmt /\ (f = "obj" \/ Exact(motion))
                    /\ fmt' = f /\ Step(<<"SwitchFormat", IF f = "obj" THEN 0 ELSE IF f = "pdb" THEN 1 ELSE 2>>)
-                   /\ UNCHANGED <<motion, atomOrder, chains, shift, icodes>>
+                   /\ UNCHANGED <<motion, atomOrder, chains, shift, icodes, records>>
+\* the describing records come and go (they matter only while the format is a text)
+ToggleRecords   == /\ records' = 1 - records /\ Step(<<"ToggleRecords", 1 - records>>)
+                   /\ UNCHANGED <<motion, atomOrder, chains, shift, icodes, fmt>>
 
 Next == \/ \E k \in 1..NRot : Rotate(k)
         \/ \E k \in 1..NAxis : AxisPerm(k)
@@ -70,17 +77,18 @@ Next == \/ \E k \in 1..NRot : Rotate(k)
         \/ \E k \in 0..NShift : ShiftNumbers(k)
         \/ \E k \in 0..NIcode : InsertCodes(k)
         \/ \E f \in Formats : SwitchFormat(f)
+        \/ ToggleRecords
 Spec == Init /\ [][Next]_vars
 
 \* every reachable presentation is deliverable: a text format never has to carry a random rotation
 Deliverable == fmt \in {"pdb", "cif"} => Exact(motion)
-TypeOK == /\ fmt \in Formats /\ atomOrder \in 0..NPerm /\ chains \in {0, 1} /\ shift \in 0..NShift /\ icodes \in 0..NIcode /\ steps <= MaxSteps
+TypeOK == /\ fmt \in Formats /\ records \in {0, 1} /\ atomOrder \in 0..NPerm /\ chains \in {0, 1} /\ shift \in 0..NShift /\ icodes \in 0..NIcode /\ steps <= MaxSteps
 
 \* which sentence of the property a step exercises
 ClauseOf(opname) ==
   CASE opname \in {"Rotate", "AxisPerm", "Translate"} -> "InvariantUnderMotion"
     [] opname = "PermuteAtoms" -> "InvariantUnderAtomOrder"
     [] opname \in {"RenameChains", "ShiftNumbers", "InsertCodes"} -> "InvariantUnderRelabel"
-    [] opname = "SwitchFormat" -> "InvariantUnderFormat"
+    [] opname \in {"SwitchFormat", "ToggleRecords"} -> "InvariantUnderFormat"
     [] OTHER -> "Delivery"
 =============================================================================
